@@ -11,7 +11,9 @@ dst = "/verif/seeded/%s-%s%s" % (pid, TAG, m)
 if os.path.exists(dst):
     shutil.rmtree(dst)
 shutil.copytree(src, dst)
-log = "%s/results/%s-%s.log" % (ROOT, pid, m)
+log = "%s/results/%s-%s-%s.log" % (ROOT, pid, m, by)
+if not os.path.exists(log):
+    log = "%s/results/%s-%s.log" % (ROOT, pid, m)
 ran = open(log).read() if os.path.exists(log) else ""
 base = subprocess.run(["git", "-C", "%s/%s" % (ROOT, pid), "rev-parse", "--short", "HEAD"], stdout=subprocess.PIPE).stdout.decode().strip()
 meta = {
